@@ -29,6 +29,7 @@ type DirScript struct {
 	PauseEvery int    `json:"pause_every"` // reader sleeps PauseUs after every PauseEvery reads (0: never)
 	PauseUs    int    `json:"pause_us"`
 	StopAfter  int    `json:"stop_after"`        // reader closes its end once it has read this many bytes (< 0: reads to end-of-stream)
+	ZeroEvery  int    `json:"zero_every,omitempty"` // every ZeroEvery-th Read of the reader uses a zero-length buffer (0: never)
 	Kicks      int    `json:"kicks,omitempty"`   // a third goroutine sets a past write deadline on the writing end this many times
 	KickUs     int    `json:"kick_us,omitempty"` // ... this far apart; the writer clears the deadline and carries on
 }
@@ -477,6 +478,11 @@ func (w *workRun) reader(ws *workStream, k int) {
 		n := 1
 		if len(sc.Bufs) > 0 {
 			n = max(1, sc.Bufs[reads%len(sc.Bufs)])
+		}
+		if sc.ZeroEvery > 0 && reads%sc.ZeroEvery == sc.ZeroEvery-1 {
+			// A zero-length read: returns (0, nil) or a documented error and
+			// is judged like any other read (it must not disturb delivery).
+			n = 0
 		}
 		got, err := e.st.Read(buf[:n])
 		w.progress.Add(1)
